@@ -171,6 +171,17 @@ def main():
         corpus = [m for m in corpus if m["short"] in want or m["id"] in want]
     if a.kind:
         corpus = [m for m in corpus if m["kind"] == a.kind]
+    # the sweep is only meaningful when the unchanged tree is clean
+    from sa import check as _check
+    from sa.core import report as _report
+    dirty = []
+    for p in props:
+        code = _report.verdict(_check.run_property(p, a.tier))[0]
+        if code != 0:
+            dirty.append(f"{p}(exit {code})")
+    if dirty:
+        print("unchanged tree is not clean for: " + ", ".join(dirty) + " -- fix that first")
+        return 2
     res = sweep(corpus, props, tier=a.tier, jobs=a.jobs)
     bad = 0
     for m in corpus:
